@@ -76,6 +76,33 @@ class SymWorld(S.World):
     def index_map(self, name, new_sort, src_sort=None, n_src=1):
         return S.index_map(name, new_sort, n_src)
 
+    def random_key(self, name="key"):
+        class _Key:
+            pass
+        k = _Key()
+        k.name = name
+        return k
+
+    def random_normal(self, key, shape):
+        """the standard-normal stream of the key (assumed contract of jax.random.normal: a deterministic function of
+        key and shape with i.i.d. N(0,1) entries)"""
+        return S.atom_array(f"z[{key.name}]", *shape)
+
+    def cholesky(self, A):
+        return MX.cholesky_contract(A)
+
+    def atom_indices(self, arr, atom_name):
+        """index tuples with which `atom_name` occurs in the normal form of a (non-block) array, in the array's own
+        axis variables: returns (axes comps, list of index tuples, set of bound positions)"""
+        arr = arr.fresh_copy()
+        p = K.normalize(arr.expr, self.ctx)
+        out = []
+        for (f, nb), c in p.items():
+            for x in f:
+                if x[0] == "A" and x[1] == atom_name:
+                    out.append(x[2])
+        return [c for a in arr.axes for c in a.comps], out
+
     def block_index(self, part_sorts, which):
         """index list addressing the coordinates of blocks `which` (list of positions) of a direct-sum axis"""
         r = S.IndexArr("parts", parts=list(which), size=None)
@@ -399,6 +426,17 @@ class NumWorld:
         eye = np.eye(Dn)
         return dict(S=self.xp.asarray(s[..., None] * eye), L=self.xp.asarray((1.0 / s)[..., None] * eye),
                     ld=self.xp.asarray(np.sum(np.log(s), axis=-1)), s=self.xp.asarray(s))
+
+    def random_key(self, name="key"):
+        import jax
+        return jax.random.PRNGKey(abs(hash(name)) % (2 ** 31))
+
+    def random_normal(self, key, shape):
+        import jax
+        return jax.random.normal(key, tuple(int(s) for s in shape))
+
+    def cholesky(self, A):
+        return self.xp.linalg.cholesky(A)
 
     def block_index(self, part_sorts, which):
         np = self.np
